@@ -105,7 +105,7 @@ static bool carry_over_fails(const Plan &p, const std::string &key, int *which =
     run_solo(p, a);
     run_solo(p, b, -1, true);
     for (size_t t = 0; t < p.tasks.size(); t++)
-        for (size_t o = 1; o < p.tasks[t].ops.size(); o++)
+        for (size_t o = 1; o < p.tasks[t].ops.size() && !p.tasks[t].ops[o].f.alloc_k && !p.tasks[t].ops[o].f.alloc_mask; o++)
             if ((!b.res[t][o].done || a.res[t][o].digest != b.res[t][o].digest) && std::string("carry-over:") + g_fn[p.tasks[t].ops[o].fn].name == key) {
                 if (which) *which = (int)o;
                 return true;
@@ -537,6 +537,11 @@ int c12_batch(const Args &a) {
                 run_solo(plan, fresh, -1, true);
                 for (size_t t = 0; t < plan.tasks.size(); t++)
                     for (size_t o = 1; o < plan.tasks[t].ops.size(); o++) {
+                        // a call with an allocation failure attached is not compared: the failure is addressed by request
+                        // ordinal, and a thread that allocates a per-thread context lazily makes one request more in its
+                        // first call than later ones, so renewal shifts the failure to another request
+                        // (nor are the calls after it: their digests cover the task's whole memory, which that call shapes)
+                        if (plan.tasks[t].ops[o].f.alloc_k || plan.tasks[t].ops[o].f.alloc_mask) break;
                         st.carry_ops++;
                         if (fresh.res[t][o].done && fresh.res[t][o].digest == solo.res[t][o].digest) continue;
                         const Op &op = plan.tasks[t].ops[o];
